@@ -380,3 +380,103 @@ impl Group for Huge {
         true
     }
 }
+
+/// `Http1Body`'s bookkeeping on a scripted socket: the handler's reads, then `discard_rest`
+pub struct BodyAcct;
+impl Group for BodyAcct {
+    fn name(&self) -> &'static str {
+        "c08.body"
+    }
+    fn rule(&self) -> &'static str {
+        "application::Http1Body::new(reader, early bytes, declared length) over a scripted reader that holds exactly the rest of the body and then stays open (reads pending): 0-2 read_to_bytes calls with limits around 0, the early bytes, the declared length and far above; then discard_rest(max) (through the verif-hooks accessor) with max in {0, 10, 4096, 4 MiB} and a patience of 30 ms; early in {0,1,20,100}, bodies from empty to 5000 bytes beyond the early part, chunk patterns {all, 1, 7, 4096}; what each read returned, discard_rest's answer and the reader's position compared with the model (`BodyAcct`); oracle from the statement: the first read is the body up to the limit (the right bytes), later ones are empty, and if the connection is to be used again the reader stands exactly at the end of the body; non-trivial = a partial read or early bytes"
+    }
+    fn generate(&self, _ctx: &Ctx, rng: &mut Rng) -> Vec<String> {
+        let mut v = Vec::new();
+        for early in [0usize, 1, 20, 100] {
+            for extra in [0usize, 1, 50, 5000] {
+                let declared = early + extra;
+                let cands = [0usize, 1, 10, early.saturating_sub(1), early, early + 1, declared.saturating_sub(1), declared, declared + 5, 1 << 20];
+                let mut limit_sets: Vec<Vec<usize>> = vec![vec![]];
+                for m in cands { limit_sets.push(vec![m]); }
+                for _ in 0..4 { limit_sets.push(vec![*rng.pick(&cands), *rng.pick(&cands)]); }
+                for ls in limit_sets {
+                    let max = *rng.pick(&[0usize, 10, 4096, 1 << 22]);
+                    let pat = *rng.pick(&["[]", "[1]", "[7]", "[4096]"]);
+                    v.push(format!("c08.body {early} {declared} {} {max} {pat}", list(ls.iter().map(|x| x.to_string()))));
+                }
+            }
+        }
+        v
+    }
+    /// the model takes what each call's reads took off the socket from the observation (` takes=[…]`), and says whether it
+    /// allows them
+    fn driver_line_with(&self, line: &str, impl_out: &str) -> String {
+        let p: Vec<&str> = line.split(' ').collect();
+        let takes = impl_out.split(' ').find_map(|t| t.strip_prefix("takes=")).and_then(parse_list).unwrap_or_default();
+        let limits = parse_list(p[3]).unwrap_or_default();
+        let calls = list(limits.iter().enumerate().map(|(i, l)| format!("{l}@{}", takes.get(i).map(String::as_str).unwrap_or("0"))));
+        format!("c08.body {} {} {calls} {}", p[1], p[2], p[4])
+    }
+    fn canon(&self, out: &str) -> String {
+        out.split(" takes=").next().unwrap_or(out).to_owned()
+    }
+    fn run_impl(&self, _ctx: &Ctx, line: &str) -> String {
+        use crate::groups::c18::Scripted;
+        let p: Vec<&str> = line.split(' ').collect();
+        let (early, declared, max): (usize, usize, usize) = (p[1].parse().unwrap(), p[2].parse().unwrap(), p[4].parse().unwrap());
+        let limits: Vec<usize> = parse_list(p[3]).unwrap().iter().map(|s| s.parse().unwrap()).collect();
+        let pattern: Vec<usize> = parse_list(p[5]).unwrap().iter().map(|s| s.parse().unwrap()).collect();
+        let content = gen_bytes(declared, 3);
+        let rd = std::sync::Arc::new(tokio::sync::Mutex::new(Scripted { data: content[early..].to_vec(), pos: 0, pattern, call: 0, log: vec![], open: true }));
+        let rt = tokio::runtime::Builder::new_current_thread().enable_time().build().unwrap();
+        let rd2 = rd.clone();
+        let content2 = content.clone();
+        let r = rt.block_on(async move {
+            tokio::time::timeout(std::time::Duration::from_secs(5), async move {
+                let mut body = kvarn::application::Http1Body::new(rd2.clone(), Bytes::copy_from_slice(&content2[..early]), declared);
+                let mut lens = Vec::new();
+                let mut takes = Vec::new();
+                let mut wrong = false;
+                for m in limits {
+                    let before = rd2.lock().await.pos;
+                    match body.read_to_bytes(m).await {
+                        Ok(b) => { if b[..] != content2[..b.len().min(content2.len())] { wrong = true; } lens.push(b.len().to_string()); }
+                        Err(_) => lens.push("err".into()),
+                    }
+                    takes.push((rd2.lock().await.pos - before).to_string());
+                }
+                let ok = kvarn::verif::discard_rest(&mut body, max, std::time::Duration::from_millis(30)).await;
+                let taken = rd2.lock().await.pos;
+                format!("reads={} discard={} taken={taken}{} takes={}", list(lens), b01(ok), if wrong { " WRONG-BYTES" } else { "" }, list(takes))
+            }).await
+        });
+        r.unwrap_or_else(|_| "hang".into())
+    }
+    fn oracle(&self, _ctx: &Ctx, line: &str, out: &str) -> Option<(String, String)> {
+        let p: Vec<&str> = line.split(' ').collect();
+        let (early, declared): (usize, usize) = (p[1].parse().ok()?, p[2].parse().ok()?);
+        let limits: Vec<usize> = parse_list(p[3])?.iter().filter_map(|s| s.parse().ok()).collect();
+        let key = format!("body:{line}");
+        if out == "hang" || out == "panic" || out.contains("WRONG-BYTES") || out.contains("err") { return Some((key, out.to_owned())); }
+        let get = |k: &str| out.split(' ').find_map(|t| t.strip_prefix(k)).unwrap_or("").to_owned();
+        let lens: Vec<usize> = parse_list(&get("reads="))?.iter().filter_map(|s| s.parse().ok()).collect();
+        // the first read that asks for anything gets the body up to its limit, the others nothing
+        let mut given = false;
+        for (m, l) in limits.iter().zip(&lens) {
+            let want = if given { 0 } else { declared.min(*m) };
+            if *l != want { return Some((key, format!("read_to_bytes({m}) of a {declared}-byte body returned {l} bytes (expected {want}): {out}"))); }
+            if want > 0 { given = true; }
+        }
+        if get("discard=") == "1" && get("taken=").parse::<usize>().ok()? != declared - early {
+            return Some((key, format!("the connection is to be used again, but the reader took {} of the {} bytes that were still to come: {out}", get("taken="), declared - early)));
+        }
+        None
+    }
+    fn nontrivial(&self, line: &str, _o: &str) -> bool {
+        let p: Vec<&str> = line.split(' ').collect();
+        p[1] != "0" || p[3] != "[]"
+    }
+    fn classify(&self, _l: &str, o: &str) -> String {
+        o.split(' ').nth(1).unwrap_or("").to_owned()
+    }
+}
